@@ -572,6 +572,6 @@ func (c *fnCtx) lockOp(call *ast.CallExpr) (*Stmt, bool) {
 	case "Unlock", "RUnlock":
 		return &Stmt{K: KRel, Ref: ref, Label: gs.LockLabel, Pos: c.pos(call.Pos())}, true
 	}
-	c.t.fail(call.Pos(), "%s on %s: conditional locking is not supported", se.Sel.Name, gs.LockLabel)
+	c.t.fail(call.Pos(), "%s on %s: conditional locking (a lock operation inside an expression) is not supported", se.Sel.Name, gs.LockLabel)
 	return skip(), true
 }
